@@ -6,13 +6,14 @@ import common
 import rfigc_util as ru
 from common import hx
 
-LEAN_MODULES = ["Pff.Props.C16", "Pff.Props.Csv"]
+LEAN_MODULES = ["Pff.Props.C16", "Pff.Props.Csv", "Pff.Props.Path"]
 PROP_MODULE = "Pff.Props.C16"
 THEOREMS = ["Pff.Rfigc.C16_remove_only_missing", "Pff.Rfigc.C16_append_once", "Pff.Rfigc.C16_initial_consistent",
             "Pff.Rfigc.C16_converge", "Pff.Rfigc.C16_stale_witness",
             "Pff.Csv.C05_csv_roundtrip",
             "Pff.Csv.C16_csv_append",
-            "Pff.Csv.C05_db_roundtrip"]
+            "Pff.Csv.C05_db_roundtrip",
+            "Pff.Path.PATH_gen_root_independent", "Pff.Path.PATH_single_file"]
 MODELLED = [("pyFileFixity/rfigc.py", "main"), ("pyFileFixity/lib/_compat.py", "_csv_writer")]
 TRUSTED_BASE = [
     "Lean 4.33.0 kernel; axioms per theorem under coverage.theorems (subset of propext, Classical.choice, Quot.sound)",
